@@ -1,0 +1,29 @@
+//go:build verif
+
+package tuple
+
+// Contracts for the tuple plugin (C15, C16, C01, C09), read by /verif's gvc (comment-only file).
+
+//@ func (g *gen) Add(name string, typs []types.Type) (r string, err error)
+//@ param typs: len=0,1,2,3
+//@ param name: classes=Ident
+
+//@ func (g *gen) Generate(typs []types.Type) (err error)
+//@ param typs: len=1,2,3
+
+//@ func (g *gen) genFuncFor(typs []types.Type) (err error)
+//@ param typs: len=1,2,3
+//@ emits: decls
+//@ serves: tuple typs=typs
+//@ o-sig: when len(typs)=1 (v0 $typs[0]) (r func() $typs[0])
+//@ o-sig: when len(typs)=2 (v0 $typs[0], v1 $typs[1]) (r func() ($typs[0], $typs[1]))
+//@ o-sig: when len(typs)=3 (v0 $typs[0], v1 $typs[1], v2 $typs[2]) (r func() ($typs[0], $typs[1], $typs[2]))
+//@ o-pure
+//@ o-ensures: r != nil
+//@ o-closure: cr0 cr1 cr2
+//@ o-closure-ensures: when len(typs)=1 [yields-its-arguments] cr0 == v0
+//@ o-closure-ensures: when len(typs)=2 [yields-its-arguments] cr0 == v0 && cr1 == v1
+//@ o-closure-ensures: when len(typs)=3 [yields-its-arguments] cr0 == v0 && cr1 == v1 && cr2 == v2
+//@ o-caller-ensures: when len(typs)=1 result(0, r) == v0
+//@ o-caller-ensures: when len(typs)=2 result(0, r) == v0 && result(1, r) == v1
+//@ o-caller-ensures: when len(typs)=3 result(0, r) == v0 && result(1, r) == v1 && result(2, r) == v2
